@@ -2005,6 +2005,18 @@ func (ls *LState) Resume(th *LState, fn *LFunction, args ...LValue) (ResumeState
 		}
 		return ResumeOK, nil, ret
 	}
+	if ls.G.CurrentThread == th {
+		return ResumeError, newApiErrorS(ApiErrorRun, "can not resume a running thread"), nil
+	}
+	for p := ls; p != nil; p = p.Parent {
+		if p.Parent == th {
+			// th is waiting for the running coroutine (directly or not) to yield
+			return ResumeError, newApiErrorS(ApiErrorRun, "can not resume a non-suspended thread"), nil
+		}
+	}
+	if th.Dead {
+		return ResumeError, newApiErrorS(ApiErrorRun, "can not resume a dead thread"), nil
+	}
 	if !isstarted {
 		th.resumed = true
 		base := 0
@@ -2019,19 +2031,6 @@ func (ls *LState) Resume(th *LState, fn *LFunction, args ...LValue) (ResumeState
 			Parent:     nil,
 			TailCall:   0,
 		})
-	}
-
-	if ls.G.CurrentThread == th {
-		return ResumeError, newApiErrorS(ApiErrorRun, "can not resume a running thread"), nil
-	}
-	for p := ls; p != nil; p = p.Parent {
-		if p.Parent == th {
-			// th is waiting for the running coroutine (directly or not) to yield
-			return ResumeError, newApiErrorS(ApiErrorRun, "can not resume a non-suspended thread"), nil
-		}
-	}
-	if th.Dead {
-		return ResumeError, newApiErrorS(ApiErrorRun, "can not resume a dead thread"), nil
 	}
 	th.Parent = ls
 	ls.G.CurrentThread = th
